@@ -116,3 +116,34 @@ fn io_result(w: &mut Zoo) -> std::io::Result<()> {
     w.n += 1;
     Ok(())
 }
+
+/// A parameter whose regex has significant edge whitespace and an empty alternative (optional negation idiom).
+#[derive(Debug, Parameter)]
+#[param(regex = " not|", name = "negation")]
+pub struct Negation(bool);
+
+impl std::str::FromStr for Negation {
+    type Err = String;
+
+    fn from_str(s: &str) -> Result<Self, String> {
+        Ok(Self(!s.is_empty()))
+    }
+}
+
+/// A parameter whose regex ends in an escaped `$` and starts with a `^`-free alternative; default (lower-cased) name.
+#[derive(Debug, Parameter)]
+#[param(regex = r"€|£|\$")]
+pub struct Currency(char);
+
+impl std::str::FromStr for Currency {
+    type Err = String;
+
+    fn from_str(s: &str) -> Result<Self, String> {
+        s.chars().next().map(Self).ok_or_else(|| "empty".to_owned())
+    }
+}
+
+#[then(expr = "the light is{negation} on and costs {currency}")]
+fn expr_edge_params(w: &mut Zoo, neg: Negation, cur: Currency) {
+    w.n += i64::from(neg.0) + i64::from(cur.0 as u32);
+}
